@@ -37,7 +37,7 @@ RULE = ('file: 1..4 logical files; logical file: FILE-HEADER (3 in 4 in the conv
         'an invariant attribute.  Distinct = distinct case.')
 ASSUMPTIONS = ['object names unique within a set, attribute labels unique within a template (the duplicate strategies are configuration, not under test)',
                'at most one CHANNEL and one FRAME set per logical file, and only in well-formed pairs (LogicalFile documents multiple CHANNEL sets as unsupported)',
-               'an object that overrides count or representation code of an attribute whose template carries a value also carries a value (otherwise the cell is ambiguous)',
+               'an object that overrides the representation code (or sets a count of 0) on an attribute whose template carries a value also carries a value (otherwise the cell is ambiguous); a count alone may be overridden without a value: the cell states the object count and the template value',
                'a cell of count 0 may present its value as an empty list or as no value; a set without name may present the name as empty or as None',
                'VSINGL reserved operands (exponent 0, sign 1), STATUS values other than 0/1, DTIME fields outside their calendar range and non-minimal UVARI encodings are not generated',
                'the role of a set (SET / RDSET / RSET) is not exposed by the reader and is not compared',
